@@ -164,18 +164,23 @@ def handleC12 (j : Json) : Except String Verdict := do
     let modelStr := match model with
       | .ok true => "true" | .ok false => "false"
       | .error (.sliceOOB lo len) => s!"panic: runtime error: slice bounds out of range [{lo}:{len}]"
+    let specStr := if spec then "true" else "false"
+    -- Spec-on-impl first: the implementation's answer must be the anchored, case-insensitive wildcard match
+    if res == specStr then
+      if modelStr != res then
+        return .mismatch "matchPattern" s!"name {hex name} pattern {pat.map hex}: model {modelStr} vs impl {res}"
+      return .ok
     if modelStr != res then
-      return .mismatch "matchPattern" s!"name {hex name} pattern {pat.map hex}: model {modelStr} vs impl {res}"
-    -- Spec-on-impl: the implementation's answer is the anchored, case-insensitive wildcard match
-    if res == (if spec then "true" else "false") then return .ok
-    -- which deviation explains it?  Lower-casing once differs from the specification only by the missing end anchor
-    -- (`matchLoop_eq_wildP`), so a case that the lower-casing variant gets right is a case-folding defect.
+      -- the implementation deviates from the specification in a way the model of the pinned code does not explain
+      return .specfalse "match-deviates" s!"name {hex name} pattern {pat.map hex}: impl {res}, wildcard {spec}, model of the code {modelStr}"
+    -- which known deviation explains it?  Lower-casing once differs from the specification only by the missing end
+    -- anchor (`matchLoop_eq_wildP`), and that can only make the code match *more*.
     let fixedOk := matchPattern true kwBytes name pat == .ok spec
     let sig :=
       if res.startsWith "panic" then "match-panic"
       else if fixedOk && kwBytes.contains (lower name) then "match-keyword-case"
       else if fixedOk then "match-case-length"
-      else if pat.getLast? != some star then "match-unanchored"
+      else if pat.getLast? != some star && res == "true" && !spec then "match-unanchored"
       else "match-not-wildcard"
     return .specfalse sig s!"name {hex name} pattern {pat.map hex}: impl {res}, wildcard {spec}"
   | "globdiff" =>
